@@ -154,7 +154,7 @@ def gen_cases(run, thorough):
             n = heavy_n(q) if q >= 10 else rng.choice([0, 3, 1000, 30000, 80000])
             add("single-parameter", base + s, kind, n, sd(), rng.choice(["one", "chunks", "tiny-out", "flush"]))
     # C. random combinations of everything
-    for _ in range(1000 * mult):
+    for _ in range(800 * mult):
         q = rng.choice([0, 1, 2, 3, 4, 5, 6, 7, 8, 9, 9, 10, 11, 11, -1, 12])
         if q >= 10 and rng.random() < 0.5:
             q = rng.choice([2, 5, 9])
@@ -251,8 +251,8 @@ def gen_cases(run, thorough):
     #    fixed by 4c6c0ca: roughly 1 in 30 PRNG inputs of 30 KB at qualities 5-9)
     for score in (2400, 4000, 100000, (1 << 31) - 1):
         for q in (5, 6, 7, 9, 2, 3, 4):
-            for i in range((10 if q >= 5 else 2) * (2 if thorough else 1)):
-                add("large-literal-byte-score", [(1, q), (2, rng.choice([18, 22, 24])), (154, score)], "rand", rng.randrange(20000, 40001), sd(), "one")
+            for i in range((7 if q >= 5 else 1) * (2 if thorough else 1)):
+                add("large-literal-byte-score", [(1, q), (2, rng.choice([18, 22, 24])), (154, score)], "rand", rng.randrange(20000, 36001), sd(), "one")
             add("large-literal-byte-score", [(1, q), (2, 22), (154, score)], rng.choice(["text", "mix", "html"]), rng.randrange(20000, 40001), sd(), "one")
         for q in (5, 9):
             add("large-literal-byte-score", [(1, q), (2, 22), (154, score), (151, 1)], "rand", rng.randrange(20000, 40001), sd(), "one")
@@ -268,10 +268,22 @@ def gen_cases(run, thorough):
     return cases
 
 
+_PR = {}
+
+
 def parse_r(line):
     """`R key=value ...`; the value of st= may be a panic message with blanks in it"""
     if not line.startswith("R "):
         return None
+    key = id(line)
+    if key in _PR and _PR[key][0] is line:
+        return _PR[key][1]
+    d = _parse_r(line)
+    _PR[key] = (line, d)
+    return d
+
+
+def _parse_r(line):
     import re
     m = re.match(r"R st=(.*?) fin=(\d) (.*)$", line)
     if not m:
@@ -474,9 +486,9 @@ def check(run):
             continue
         snaps = f["rg"].split(";")
         if not meta["section"].startswith("ring-tracking"):
-            if len(f["out"]) > 100000:
+            if len(f["out"]) > 60000:
                 continue
-            snaps = rng.sample(snaps, min(2, len(snaps)))
+            snaps = rng.sample(snaps, 1)
         for sn in snaps:
             n = int(sn.split(":")[0])
             rreq.append("DR 1 " + f["out"][:2 * n])
